@@ -251,6 +251,23 @@ def run_case(ctx, rng, kind, centered, n_dim, n_cov, n_ids, sel_mode,
                       'likelihood_relation:' + kind,
                       {'covariate_model': val, 'per_individual': ref,
                        'selection': given, 'case': feats}, feats)
+    # one-dimensional models also take the individual parameters as a flat
+    # vector of length n_ids (and as a list)
+    if n_dim == 1 and kind in 'GLT':
+        try:
+            flat = obs[:, 0].copy()
+            v_flat = model.compute_log_likelihood(
+                top, flat if rng.random() < 0.5 else flat.tolist(), cov)
+            ctx.count('flat_observation_vectors')
+            if not ctx.close(v_flat, ref, rtol=1e-10, scale=sc):
+                ctx.violation('equals_underlying_model_per_individual',
+                              'likelihood_relation_flat_observations:' + kind,
+                              {'covariate_model': v_flat,
+                               'per_individual': ref, 'case': feats}, feats)
+        except Exception as e:      # noqa
+            ctx.violation_exc('evaluation_raises', e,
+                              {'case': feats, 'call': 'flat observations'},
+                              feats)
     # individual parameters
     try:
         psi = np.asarray(model.compute_individual_parameters(
